@@ -1,7 +1,7 @@
 ---------------------------- MODULE SampleTableTrace ----------------------------
 (* Total monitor: a trace is a battery of operations on one table.                                               *)
 (*  Table [rows, names, units, meta]   - the table under test (rows [id, K, w, m, p])                            *)
-(*  Wrap [out]  Phase [q, ts, exact]  Pack [names, units, hashes, names2, units2, hashes2, raised]               *)
+(*  Wrap [out]  WrapUsed [out, same, rescaled, skipped, raised]  Phase [q, ts, exact]  Pack [names, units, hashes, names2, units2, hashes2, raised]               *)
 (*  Index [sel, out, units, meta, raised]  Copy [out, units, meta]  Reduce [kind, n, units, meta, raised]        *)
 (*  Median [rid, units, meta, raised]                                                                            *)
 EXTENDS SampleTable, Json, IOUtils
@@ -20,6 +20,13 @@ OnWrap(e) ==
        (IF \E k \in DOMAIN tbl.rows : tbl.rows[k].K >= 0 /\ Plain(e.out)[k] # Plain(tbl.rows)[k] THEN "C17.WrapKLeavesNonNegativeRowsAlone"
         ELSE "C17.WrapKMovesOmegaByPiModTwoPi")
   ELSE IF ~KeepsUnitsMeta(e) THEN "C17.WrapKKeepsUnitsAndMeta"
+  ELSE ""
+OnWrapUsed(e) ==
+  IF e.raised THEN "C17.WrapKOfAnInspectedTableRaises"
+  ELSE IF e.skipped THEN ""
+  ELSE IF OnWrap(e) # "" THEN OnWrap(e)
+  ELSE IF ~e.same THEN "C17.WrapKKeepsTheCurveOfATableAlreadyRead"
+  ELSE IF ~e.rescaled THEN "C17.OrbitFollowsTheRowsAsTheyAre"
   ELSE ""
 OnPhase(e) ==
   IF e.raised THEN "C17.TimeWithPhaseRaises"
@@ -59,7 +66,7 @@ Step ==
   /\ LET e == Ev[l]
          c == IF ~ok THEN clause
               ELSE CASE e.ev = "Table" -> ""
-                     [] e.ev = "Wrap" -> OnWrap(e) [] e.ev = "Phase" -> OnPhase(e) [] e.ev = "Pack" -> OnPack(e)
+                     [] e.ev = "Wrap" -> OnWrap(e) [] e.ev = "WrapUsed" -> OnWrapUsed(e) [] e.ev = "Phase" -> OnPhase(e) [] e.ev = "Pack" -> OnPack(e)
                      [] e.ev = "Index" -> OnIndex(e) [] e.ev = "Copy" -> OnCopy(e) [] e.ev = "Reduce" -> OnReduce(e)
                      [] e.ev = "Median" -> OnMedian(e) [] OTHER -> "unknown event"
      IN /\ ok' = (ok /\ c = "") /\ clause' = c /\ pos' = IF ok /\ c # "" THEN l ELSE pos
